@@ -8,8 +8,9 @@ RING_ASSUME = [
     "arbitrary verdict; ciphertext = plaintext XOR pad on the first 32 bytes, longer ciphertexts are remembered by length "
     "and 32-byte prefix only; confidentiality is not modelled",
     "ring::rand::SystemRandom::fill returns arbitrary bytes (over-approximates every RNG)",
-    "smallvec replaced by a Vec-backed model with the same API (inline/heap spill unobservable)",
+    "smallvec replaced by a fixed-capacity inline-storage model with the same API (spill to heap unobservable; exceeding the model capacity is an assertion failure, not a cut)",
     "log macros are dead code at the default max level (Off); formatting is not the subject of any property",
+    "Error values are forgotten, not dropped, in harness code (their drop glue is irrelevant to every property)",
     "Kani 0.68 / CBMC 6.11 (cadical) and rustc's MIR are trusted; counterexamples are replayed natively before being reported",
 ]
 
